@@ -193,6 +193,12 @@ type BuildReq struct {
 	Twice       bool     `json:"twice,omitempty"`  // run the target twice on the same loaded project
 	Reload      bool     `json:"reload,omitempty"` // Reload() between the two runs
 	HashAround  bool     `json:"hash_around,omitempty"` // hash the whole tree after Load and again after Run/GC
+	// WarmOverlay (a directory) makes this a build on a long-lived project, the way `dawn watch` builds: the tree at Root
+	// is first built completely (always) on the freshly loaded Project, then the files of WarmOverlay replace the tree's
+	// (the edit), the Project is Reload()ed and only then is the requested run made. Crash points are armed for that
+	// last run only; WarmLog receives a marker line when the warm-up is over.
+	WarmOverlay string `json:"warm_overlay,omitempty"`
+	WarmLog     string `json:"warm_log,omitempty"`
 }
 
 type BuildRes struct {
@@ -212,6 +218,9 @@ type BuildRes struct {
 func Build(req BuildReq) (res BuildRes) {
 	rec := &Recorder{}
 	defer func() { res.Events = rec.Snapshot() }()
+	if req.WarmOverlay != "" {
+		Disarmed.Store(true) // the first load and the warm-up build are not part of the interrupted build
+	}
 	proj, err := dawn.Load(req.Root, &dawn.LoadOptions{
 		Args:        req.Args,
 		Events:      rec,
@@ -248,6 +257,27 @@ func Build(req BuildReq) (res BuildRes) {
 		return
 	}
 	opts := &dawn.RunOptions{Always: req.Always, DryRun: req.Dry}
+	if req.WarmOverlay != "" {
+		Disarmed.Store(true)
+		if err := proj.Run(l, &dawn.RunOptions{Always: true}); err != nil {
+			res.RunErr = "warm-up: " + err.Error()
+			return
+		}
+		if err := overlayTree(req.WarmOverlay, req.Root); err != nil {
+			res.RunErr = "overlay: " + err.Error()
+			return
+		}
+		if f, err := os.OpenFile(req.WarmLog, os.O_WRONLY|os.O_APPEND|os.O_CREATE, 0o644); err == nil {
+			fmt.Fprintf(f, "W warm-up-done\n")
+			f.Close()
+		}
+		rec.Reset()
+		if err := proj.Reload(); err != nil {
+			res.LoadErr = "reload: " + err.Error()
+			return
+		}
+		Disarmed.Store(false)
+	}
 	if err := proj.Run(l, opts); err != nil {
 		res.RunErr = err.Error()
 		settle(rec)
@@ -435,4 +465,53 @@ func (lv *Live) Build(req BuildReq) (res BuildRes) {
 		settle(lv.rec)
 	}
 	return
+}
+
+// overlayTree makes the project files of dst those of src (everything but the build state under .dawn): files are copied
+// over, files that src does not have are removed.
+func overlayTree(src, dst string) error {
+	keep := map[string]bool{}
+	err := filepath.Walk(src, func(p string, info os.FileInfo, err error) error {
+		if err != nil {
+			return err
+		}
+		rel, _ := filepath.Rel(src, p)
+		if rel == ".dawn" {
+			return filepath.SkipDir
+		}
+		keep[rel] = true
+		target := filepath.Join(dst, rel)
+		if info.IsDir() {
+			return os.MkdirAll(target, 0o755)
+		}
+		b, err := os.ReadFile(p)
+		if err != nil {
+			return err
+		}
+		if old, err := os.ReadFile(target); err == nil && string(old) == string(b) {
+			return nil
+		}
+		return os.WriteFile(target, b, info.Mode())
+	})
+	if err != nil {
+		return err
+	}
+	var remove []string
+	filepath.Walk(dst, func(p string, info os.FileInfo, err error) error {
+		if err != nil {
+			return nil
+		}
+		rel, _ := filepath.Rel(dst, p)
+		if rel == ".dawn" {
+			return filepath.SkipDir
+		}
+		if !keep[rel] {
+			remove = append(remove, p)
+		}
+		return nil
+	})
+	for i := len(remove) - 1; i >= 0; i-- {
+		os.RemoveAll(remove[i])
+	}
+	return nil
 }
